@@ -35,6 +35,21 @@ func reduceDec(coef *big.Int, exp int64) string {
 	if coef.Sign() == 0 {
 		return "Z:+"
 	}
+	// canonical (coefficient without trailing zeros, exponent) first, so that 90e4999 and 9e5000
+	// get the same token
+	{
+		c := new(big.Int).Set(coef)
+		ten := big.NewInt(10)
+		for {
+			q, r := new(big.Int).QuoRem(c, ten, new(big.Int))
+			if r.Sign() != 0 {
+				break
+			}
+			c = q
+			exp++
+		}
+		coef = c
+	}
 	if exp > -5000 && exp < 5000 {
 		r := new(big.Rat).SetInt(coef)
 		p := new(big.Int).Exp(big.NewInt(10), big.NewInt(absInt64(exp)), nil)
